@@ -7,11 +7,16 @@ ENV_BY_TIER = {"quick": {"NUMBA_DISABLE_JIT": "1"}, "thorough": {}}
 RULE = ("(a) extraction tie: rescaling.count_mutations (mutation->edge map, per-edge counts and spans) vs the reference "
         "semantics of coq/model/Inputs.v evaluated on exact rationals, on msprime inputs with integer coordinates "
         "(recombination, multiple mergers, mutations above roots, historical samples); (b) metamorphic oracle: every "
-        "method on (ts, mu) and on (coordinates*c, mu/c) for c in {2, 1/4 (bit-identical expected), 3, 7.3, 1e3, 1e-3}; "
+        "method on (ts, mu) and on (coordinates*c, mu/c) for c in {2, 1/4, 2^20 (bit-identical expected), 3, 7.3, 1e3, 1e-3}; "
         "non-trivial = both runs returned and the input has >= 2 trees or >= 3 mutations")
 ASSUME = ["floating-point tolerance of the property: powers of two must be bit-identical; otherwise 1e-4 relative for "
           "variational_gamma (Newton-fit tolerances amplified: measured up to 4.3e-6) and 1e-10 for the discrete-time methods (measured 1.4e-14)"]
-CS = [2.0, 0.25, 3.0, 7.3, 1e3, 1e-3]
+CS = [2.0, 0.25, 3.0, 7.3, 1e3, 1e-3, 2.0 ** 20]   # 2^20: chromosome-scale coordinates (> 2^24), still exact
+
+
+def _exact(c):
+    import math
+    return math.frexp(c)[0] == 0.5
 # variational_gamma: its inner fits (approximate_gamma_kl / _iqr Newton loops) stop at relative tolerances around
 # 1e-8, which a rounding-level change of the inputs amplifies: measured up to 4.3e-6 (node_vr) on the unchanged
 # tree for inexact factors; exact (power-of-two) factors must be BIT-IDENTICAL, which is the sharp test
@@ -77,11 +82,11 @@ def metamorphic(ctx, rng):
         replay = {"level": "meta", "ts": gen.ts_tables_dict(ts), "method": method, "opts": D.jsonable_opts(kw), "c": c}
         if r2[0] != "ok":
             ctx.case(dict(desc, c=c, outcome="scaled-run-raised " + r2[1]), nontrivial=False, kind="meta/raise2")
-            if c in (2.0, 0.25):  # exact rescaling: the run must be identical, so it cannot raise
+            if _exact(c):  # exact rescaling: the run must be identical, so it cannot raise
                 ctx.oracle_fail("scaled-run-raises", "%s returned on ts but raised %s: %s on the input scaled by %g" % (method, r2[1], r2[2], c), replay)
             continue
         d, key = D.max_rel_diff(a, D.result_arrays(r2[1]))
-        tol = 0.0 if c in (2.0, 0.25) else TOL[method]
+        tol = 0.0 if _exact(c) else TOL[method]
         ctx.case(dict(desc, c=c, max_rel_diff=d), nontrivial=nt, kind="meta/%s/c=%g" % (method, c))
         if d > tol:
             sig = "dates-changed"
@@ -139,4 +144,4 @@ def replay(ctx, data):
     if r[0] != "ok" or r2[0] != "ok":
         return r[0] == r2[0]
     d, _ = D.max_rel_diff(D.result_arrays(r[1]), D.result_arrays(r2[1]))
-    return d <= (0.0 if case["c"] in (2.0, 0.25) else TOL[case["method"]])
+    return d <= (0.0 if _exact(case["c"]) else TOL[case["method"]])
